@@ -171,7 +171,7 @@ def run_case(case):
         if X.shape != A.shape or X.dtype != A.dtype:
             raise Violation(f"result has shape/dtype {tuple(X.shape)}/{X.dtype}, input {tuple(A.shape)}/{A.dtype}", **desc)
         if not bool(torch.isfinite(X).all()):
-            if cond > 1 / u and solver in ("newton", "ho"):
+            if cond * n * u > 0.05 and solver in ("newton", "ho"):  # rounding A to the dtype (n*u*||A||) can make A + eps*I indefinite
                 counters["weak_only"] += 1  # beyond the dtype's resolution: outside the quantified domain
                 counters["nonfinite_beyond_resolution"] = counters.get("nonfinite_beyond_resolution", 0) + 1
                 continue
